@@ -11,12 +11,12 @@ import (
 
 // ObsQ fixes the queries of an observation so that two observations are comparable.
 type ObsQ struct {
-	Next   int64
-	Keys   [][]byte
-	Times  []int64
-	MaxCnt int64
-	Order  []int // permutation of the groups
-	Stat   bool
+	Next     int64
+	Keys     [][]byte
+	Times    []int64
+	MaxCnt   int64
+	Order    []int // permutation of the groups
+	Stat     bool
 	StatSize bool
 }
 
